@@ -157,6 +157,9 @@ pub fn judge(run: &Run, st: &mut Stats, opts: &Opts, text: &str, r: &Rendered, u
         if classes_seen.contains("autocorrect") {
             st.label("has-autocorrect");
         }
+        if cands.len() >= 25 {
+            st.label("list-of-25-or-more");
+        }
         if classes_seen.contains("emoji") {
             st.label("has-emoji");
         }
@@ -235,7 +238,54 @@ pub fn strategy() -> impl Strategy<Value = Case> {
     })
 }
 
+/// Long lists: the ranking clauses hold for lists of any length.  The consonant-vowel-consonant bases with the longest
+/// lists (found by typing all 1 445 of them) x the 40 shortest suffix keys, under the option sets with and without
+/// the English item.
+fn long_lists(run: &Run) {
+    let cons: Vec<char> = "kgcjtdnpbmrlsShzy".chars().collect();
+    let vow: Vec<char> = "aeiou".chars().collect();
+    let mut bases: Vec<String> = vec![];
+    for a in &cons {
+        for v in &vow {
+            for b in &cons {
+                bases.push(format!("{a}{v}{b}"));
+            }
+        }
+    }
+    // rank the bases by the length of their own list (one context, deterministic)
+    let lo = mk_local();
+    let mut ranked: Vec<(usize, String)> = bases
+        .into_iter()
+        .map(|b| {
+            let n = lo.ctxs[0].type_text(&b).ok().flatten().map(|r| r.choices()).unwrap_or(0);
+            let _ = lo.ctxs[0].finish();
+            (n, b)
+        })
+        .collect();
+    ranked.sort_by(|x, y| y.0.cmp(&x.0).then(x.1.cmp(&y.1)));
+    ranked.truncate(run.tier.pick(40, 160));
+    let mut sk: Vec<String> = pools().suffix_keys.clone();
+    sk.sort_by_key(|s| (s.len(), s.clone()));
+    sk.truncate(40);
+    let items: Vec<(usize, String)> = ranked.iter().flat_map(|(_, b)| sk.iter().map(move |s| format!("{b}{s}"))).enumerate().collect();
+    run.exhaustive(
+        "long-lists",
+        &items,
+        |_| mk_local(),
+        |(i, text), st, lo| {
+            // every text under an option set with the English item and one without
+            for optidx in [*i % 8, (*i % 8) ^ 1] {
+                let c = Case { text: text.clone(), optidx, user: vec![] };
+                run_case(run, &c, lo, st)?;
+            }
+            Ok(())
+        },
+    );
+    run.require_label("list-of-25-or-more", 5);
+}
+
 pub fn run(run: &Run) {
+    long_lists(run);
     // exhaustive short texts
     let all = crate::driver::typeable();
     let mut texts: Vec<String> = all.iter().map(|c| c.to_string()).collect();
